@@ -74,7 +74,11 @@ def expected_vector(ref_vec, n, order):
 
 
 def chi2_ok(freqs, probs, n_shots):
-    """freqs/probs: dict bitstring -> value. Returns (ok, info)."""
+    """freqs/probs: dict bitstring -> value. Returns (ok, info).
+
+    Outcomes with expected count < 5 are pooled.  A pooled bin whose own expectation is still < 5 is not fed to the chi-square statistic
+    (its asymptotic p-values are far too small there: e.g. 7 hits at expectation 0.94 have exact tail 6e-5, chi-square says 4e-10);
+    it is tested with the exact binomial tail instead.  Rejection at p < 1e-9 in either test."""
     from scipy import stats
     keys = sorted(probs)
     exp, obs = [], []
@@ -88,16 +92,29 @@ def chi2_ok(freqs, probs, n_shots):
         else:
             exp.append(e)
             obs.append(o)
+    info = ""
     if pool_e > 0:
-        exp.append(pool_e)
-        obs.append(pool_o)
+        if pool_e >= 5:
+            exp.append(pool_e)
+            obs.append(pool_o)
+        else:
+            pp = min(1.0, pool_e / n_shots)
+            tail = float(min(stats.binom.sf(round(pool_o) - 1, n_shots, pp), stats.binom.cdf(round(pool_o), n_shots, pp)))
+            info = f"rare outcomes: {pool_o:.0f} observed, {pool_e:.2f} expected, exact binomial tail {tail:.2e}; "
+            if tail < 1e-9:
+                return False, info
+            # the rest is tested conditionally on the non-rare outcomes
+            tot_o = sum(obs)
+            tot_e = sum(exp)
+            if tot_o > 0 and tot_e > 0:
+                exp = [e * tot_o / tot_e for e in exp]
     if len(exp) < 2:
-        return True, "single bin"
+        return True, info + "single bin"
     exp = np.array(exp)
     obs = np.array(obs)
     stat = float(np.sum((obs - exp) ** 2 / exp))
     p = float(stats.chi2.sf(stat, len(exp) - 1))
-    return p > 1e-9, f"chi2={stat:.2f} dof={len(exp) - 1} p={p:.2e}"
+    return p > 1e-9, info + f"chi2={stat:.2f} dof={len(exp) - 1} p={p:.2e}"
 
 
 def fnum(x):
